@@ -237,6 +237,52 @@ theorem crop_addresses (v c : View) (ox oy j i : Nat)
     c.base + j * c.pitch + i = v.base + (oy + j) * v.pitch + (ox * v.bpp + i) := by
   rw [hb, hp, Nat.add_mul]; omega
 
+/-- **Cropping composes**: a crop of a crop is the crop of the parent at the summed offsets — the same
+base address, length, size, pitch; so any chain of crops addresses precisely the sub-rectangle it names in
+the original buffer (non-empty rectangles; empty ones are `crop_empty`). -/
+theorem crop_crop (v : View) (hv : Inv v) (ox1 oy1 w1 h1 ox2 oy2 w2 h2 : Nat)
+    (hin1 : v.containsRect ox1 oy1 w1 h1 = true) (hne1 : ¬ (w1 = 0 ∨ h1 = 0))
+    (hne2 : ¬ (w2 = 0 ∨ h2 = 0)) (hin2 : ox2 + w2 ≤ w1 ∧ oy2 + h2 ≤ h1) :
+    (v.croppedP ox1 oy1 w1 h1).bind (fun c => c.croppedP ox2 oy2 w2 h2) =
+      v.croppedP (ox1 + ox2) (oy1 + oy2) w2 h2 ∧
+    (v.croppedP (ox1 + ox2) (oy1 + oy2) w2 h2).isSome = true := by
+  obtain ⟨c1, e1, i1, cw1, ch1, cp1, cb1, cbase1⟩ := crop_spec v hv ox1 oy1 w1 h1 hin1 hne1
+  have hc2 : c1.containsRect ox2 oy2 w2 h2 = true := by
+    unfold View.containsRect; rw [cw1, ch1]; simp [hin2.1, hin2.2]
+  obtain ⟨c2, e2, i2, cw2, ch2, cp2, cb2, cbase2⟩ := crop_spec c1 i1 ox2 oy2 w2 h2 hc2 hne2
+  have hin1' := hin1
+  unfold View.containsRect at hin1'
+  simp only [Bool.and_eq_true, decide_eq_true_eq] at hin1'
+  have hc3 : v.containsRect (ox1 + ox2) (oy1 + oy2) w2 h2 = true := by
+    unfold View.containsRect
+    have a : ox1 + ox2 + w2 ≤ v.w := by omega
+    have b : oy1 + oy2 + h2 ≤ v.h := by omega
+    simp [a, b]
+  obtain ⟨c3, e3, i3, cw3, ch3, cp3, cb3, cbase3⟩ :=
+    crop_spec v hv (ox1 + ox2) (oy1 + oy2) w2 h2 hc3 hne2
+  rw [e1, e3]
+  refine ⟨?_, rfl⟩
+  show c1.croppedP ox2 oy2 w2 h2 = some c3
+  rw [e2]
+  have l2 := i2.len_eq (by rw [cw2, ch2]; exact hne2)
+  have l3 := i3.len_eq (by rw [cw3, ch3]; exact hne2)
+  have hbase : c2.base = c3.base := by
+    rw [cbase2, cbase1, cp1, cb1, cbase3, Nat.add_mul, Nat.add_mul]; omega
+  have hlen : c2.len = c3.len := by
+    rw [l2, l3, cw2, ch2, cp2, cb2, cw3, ch3, cp3, cb3, cp1, cb1]
+  cases c2; cases c3
+  simp only at hbase hlen cw2 ch2 cp2 cb2 cw3 ch3 cp3 cb3
+  subst cw2 ch2 cw3 ch3 hbase hlen
+  simp only [Option.some.injEq, View.mk.injEq, true_and]
+  exact ⟨by rw [cb2, cb1, cb3], by rw [cp2, cp1, cp3]⟩
+
+/-- non-vacuity: a 2×2 crop at (1,1) of a 6×5 crop at (2,1) of a 10×8 RGBA view with pitch 48 is the
+2×2 crop at (3,2) -/
+example : ((View.mk 0 (48 * 7 + 40) 10 8 4 48).croppedP 2 1 6 5).bind (fun c => c.croppedP 1 1 2 2) =
+    (View.mk 0 (48 * 7 + 40) 10 8 4 48).croppedP 3 2 2 2 ∧
+    (View.mk 0 (48 * 7 + 40) 10 8 4 48).croppedP 3 2 2 2 = some ⟨2 * 48 + 12, 48 + 8, 2, 2, 4, 48⟩ := by
+  decide
+
 /-- Empty crops inside the parent give the empty view. -/
 theorem crop_empty (v : View) (ox oy w h : Nat) (hin : v.containsRect ox oy w h = true)
     (he : w = 0 ∨ h = 0) : v.croppedP ox oy w h = some ⟨v.base, 0, 0, 0, v.bpp, 0⟩ := by
